@@ -96,6 +96,7 @@ type FuncSpec struct {
 	BoundD      int        // bounded mode: self-recursion inlined to this depth
 	InitPkgs    []string        // `initstate <pkg>`: verify in the state right after that package's initialiser has run
 	CallAsserts []CallAssert    // caller-side assertions at a particular call site: `atcall <callee> <n>: expr`
+	UpdAsserts  []Clause        // `atupdate label: expr`: asserted at every map update executed in the function or in a closure defined in it
 	BoundAssume []Clause        // assumed at entry only when this function is itself checked in bounded mode (states the shape bound)
 	Unknown     map[string]bool // package-level variables whose (constant) initial value must not be used: both settings are verified
 }
@@ -295,7 +296,7 @@ type parser struct {
 
 var itemKw = map[string]bool{"frame": true, "pred": true, "spec": true, "ghost": true, "lemma": true, "iface": true, "func": true, "extern": true, "axiom": true, "package": true}
 var clauseKw = map[string]bool{"requires": true, "ensures": true, "modifies": true, "reads": true, "panics": true, "decreases": true, "assumes": true,
-	"checks": true, "inline": true, "trusted": true, "loop": true, "invariant": true, "pure": true, "returns": true, "nilable": true, "params": true, "nosafety": true, "fresh": true, "ghostset": true, "bounded": true, "unknown": true, "boundedassume": true, "atcall": true, "initstate": true}
+	"checks": true, "inline": true, "trusted": true, "loop": true, "invariant": true, "pure": true, "returns": true, "nilable": true, "params": true, "nosafety": true, "fresh": true, "ghostset": true, "bounded": true, "unknown": true, "boundedassume": true, "atcall": true, "atupdate": true, "initstate": true}
 
 func (p *parser) peek() tok { return p.toks[p.p] }
 func (p *parser) next() tok { t := p.toks[p.p]; p.p++; return t }
@@ -1022,6 +1023,8 @@ func parseSpecText(file, pkgPath, src string, sp *Specs) (err error) {
 					p.expectOp(":")
 					ca.C = p.parseClause()
 					f.CallAsserts = append(f.CallAsserts, ca)
+				case "atupdate":
+					f.UpdAsserts = append(f.UpdAsserts, p.parseClause())
 				case "unknown":
 					if f.Unknown == nil {
 						f.Unknown = map[string]bool{}
